@@ -1659,14 +1659,15 @@ Examples:
     def dec(f):
         def func(x, *args, **kwds):
             x = copy.copy(x) #XXX: inefficient
-            pairs = connected(mask)
+            n = len(x) # a pair only applies if both of the pair are in range
+            _mask = [m for m in mask if all(-n <= k < n for k in m)]
+            pairs = connected(_mask)
             pairs = pairs.items()
             for i,j in pairs:
                 for k in j:
                     try: x[k] = x[i]
                     except IndexError: pass
-            n = len(x) # an offset only applies if both of the pair are in range
-            pairs = [m for m in mask if all(-n <= k < n for k in m)]
+            pairs = _mask
             while pairs: # deal with the offset
                 indx,trac = zip(*pairs)
                 trac = set(trac)
